@@ -202,6 +202,36 @@ pub struct Drv {
     pub allow_ill_typed: bool,
 }
 
+/// marker in the top 16 bits of an argument seed: enumerant-pair sweep (see `Drv::bias_arguments`)
+pub const PAIR_MARK: u64 = 0xE11E;
+
+/// ordered pairs (index, index) of enumerants of a kind whose names are related (one is a prefix of the other or they
+/// share their first six letters): LocalSize / LocalSizeId / LocalSizeHint, DenormPreserve / DenormFlushToZero, ...
+pub fn related_pairs(kind_name: &str) -> &'static Vec<(u16, u16)> {
+    use std::sync::OnceLock;
+    static MODES: OnceLock<Vec<(u16, u16)>> = OnceLock::new();
+    static DECOS: OnceLock<Vec<(u16, u16)>> = OnceLock::new();
+    let cell = if kind_name == "ExecutionMode" { &MODES } else { &DECOS };
+    cell.get_or_init(|| {
+        let s = snap();
+        let e = &s.enums[&s.kind(kind_name)];
+        let mut v = vec![];
+        for (i, a) in e.numbers.iter().enumerate() {
+            for (j, b) in e.numbers.iter().enumerate() {
+                if i == j {
+                    continue;
+                }
+                let (na, nb) = (&e.values[a], &e.values[b]);
+                let common = na.chars().zip(nb.chars()).take_while(|(x, y)| x == y).count();
+                if common >= 6 || na.starts_with(nb.as_str()) || nb.starts_with(na.as_str()) {
+                    v.push((i as u16, j as u16));
+                }
+            }
+        }
+        v
+    })
+}
+
 impl Drv {
     pub fn new() -> Drv {
         let mut d = Drv {
@@ -730,6 +760,37 @@ impl Drv {
             false
         };
         let names = ["main", "f", "main", "g"];
+        // enumerant-pair sweep: the seed names the enumerant outright (index into the declared numbers) and the target is
+        // fixed, so that two consecutive calls put a chosen PAIR of modes / decorations on one id
+        if seed >> 48 == PAIR_MARK && matches!(name, "execution_mode" | "execution_mode_id" | "decorate" | "decorate_id") && groups.len() >= 2 {
+            let k = groups[1].kind;
+            if let Some(e) = s.enums.get(&k) {
+                let number = e.numbers[(seed & 0xFFFF) as usize % e.numbers.len()];
+                let target = self.function_ids.first().or(self.type_ids.first()).or(self.all_ids.first()).cloned();
+                let mut item = vec![MOp::W(k, number)];
+                let mut ok = target.is_some();
+                for (pi, pk) in s.params_of(k, number).into_iter().enumerate() {
+                    use crate::snapshot::Cat;
+                    match s.cat(pk) {
+                        Cat::Id => item.push(MOp::W(pk, self.all_ids[(pi + (seed >> 16) as usize) % self.all_ids.len().max(1)])),
+                        Cat::LitInt | Cat::LitFloat => item.push(MOp::W(s.k_lit32, 1 + pi as u32)),
+                        Cat::LitString => item.push(MOp::S("s".into())),
+                        Cat::ValueEnum if s.params_of(pk, s.enums[&pk].numbers[0]).is_empty() => item.push(MOp::W(pk, s.enums[&pk].numbers[0])),
+                        Cat::Mask => item.push(MOp::W(pk, 0)),
+                        _ => ok = false,
+                    }
+                }
+                if ok && !self.all_ids.is_empty() {
+                    set_word(groups, 0, target.unwrap());
+                    groups[1].items = vec![item];
+                    for g in groups[2..].iter_mut() {
+                        g.items.clear();
+                    }
+                    want.ops = groups.iter().flat_map(|g| g.items.iter().flatten().cloned()).collect();
+                }
+            }
+            return;
+        }
         // annotations aimed at the function being built (the open one is the last): behaviour of the structural
         // calls must not depend on them
         if seed % 4 == 1 && !self.function_ids.is_empty() && matches!(name, "decorate" | "decorate_id" | "decorate_string" | "execution_mode" | "execution_mode_id" | "name") {
@@ -845,7 +906,7 @@ impl Drv {
         use crate::snapshot::{Cat, Quant};
         let s = snap();
         let remembered: Vec<usize> = self.recent_calls.iter().enumerate().filter(|(_, (n, _, _))| *n == name).map(|(i, _)| i).collect();
-        if seed % 3 == 1 && !remembered.is_empty() {
+        if seed % 3 == 1 && !remembered.is_empty() && seed >> 48 != PAIR_MARK {
             // sub-choices from a mix of the seed (argument seeds are often tiny numbers)
             let hsh = (seed ^ 0x5bd1_e995).wrapping_mul(0x9E37_79B9_7F4A_7C15) >> 7;
             let (_, rtype, gs) = self.recent_calls[remembered[(hsh >> 40) as usize % remembered.len()]].clone();
